@@ -9,6 +9,10 @@ pub enum Engine {
     EProof,
     /// recorded I/O: crash / power-loss images, injection, trace monitors
     EIo,
+    /// directory lock races
+    ELock,
+    /// concurrent sessions / committers
+    EConc,
 }
 
 pub struct Check {
@@ -186,6 +190,28 @@ pub fn checks() -> Vec<Check> {
             assumptions: A_IO,
         },
         Check {
+            id: "C20",
+            engine: Engine::ELock,
+            level: "exploration",
+            quick_cases: 160,
+            thorough_cases: 8000,
+            quick_budget_s: 55,
+            thorough_budget_s: 1200,
+            rule: "case = one lock scenario: 2-12 threads racing Nomt::open behind a barrier against a live holder (all must fail, SHA of every file unchanged, holder still commits); open/creation races without holder (exactly one winner while it lives); 2-8 child processes plus a thread racing (alive intervals from one monotonic clock must not overlap); holder ended by drop / SIGKILL / _exit without drop / panic unwinding / failed (poisoning) commit, followed by an immediate open; recorder and file hashes silent after drop(nomt) returned; one evaluation per opener/assertion;                    non-trivial when >=2 openers overlapped in time or the holder ended abnormally",
+            assumptions: A_LOCK,
+        },
+        Check {
+            id: "C15",
+            engine: Engine::EConc,
+            level: "exploration",
+            quick_cases: 96,
+            thorough_cases: 2400,
+            quick_budget_s: 55,
+            thorough_budget_s: 1500,
+            rule: "case = one concurrent history (1-4 reader threads with sessions read from two threads each, 1-3 writer threads using blocking / non-blocking session and overlay commits, optional rollbacks, 0.2-2.5 s, random delays at I/O completions and yield points) logged at the client boundary with one global tick; offline oracle: one version per session, proofs consistent with the session's root and reads, no successful write inside a live session, deferral only with a contender, winners form a base->version chain, final values/root/sync_seqn equal the fold of the winners, session version current during its begin interval; plus one evaluation per session / deferral;                    non-trivial when a successful write overlaps a session interval and at least one attempt was rejected or deferred; distinct = distinct interleaving signature (hash of the order of (thread, call/return) events)",
+            assumptions: A_CONC,
+        },
+        Check {
             id: "C16",
             engine: Engine::EModel,
             level: "exploration",
@@ -242,6 +268,16 @@ pub fn checks() -> Vec<Check> {
         },
     ]
 }
+
+const A_CONC: &[&str] = &[
+    "schedules are sampled by real threads plus injected delays, not enumerated; the history is recorded at the API boundary (call before, return after)",
+    "bounded progress is decided by the runner's stall watchdog (two gdb stack samples 5 s apart), never by a wall-clock deadline alone",
+];
+
+const A_LOCK: &[&str] = &[
+    "timings of racing openers are sampled (barrier start, jittered hold times), not enumerated",
+    "the documented TOCTOU of Store::open (an opener that decided to create before another opener created AND dropped the store) is outside the statement (no live handle) and is not generated",
+];
 
 const A_IO: &[&str] = &[
     "the cfg-guarded I/O hook reports every mutating file operation of an existing store (recorder completeness is cross-checked by real _exit kills)",
